@@ -113,11 +113,12 @@ def replay_history(model, cls="SinglePhaseReservoir", hist=(), pf0d=False):
                     last = ("value", np.asarray(o.recovery_factor(density=True), float).tolist())
                 else:
                     f = o.recovery_factor_interpolator()
-                    tq = float(model.get("q") or 0.5 * (o.time[0] + o.time[-1]))
-                    tq = min(max(tq, o.time[0]), o.time[-1])
-                    last = ("value", [float(f(tq))] + [float(f(t_)) for t_ in o.time])
-                    if last_rec is not None and (len(last_rec) != len(o.time) or any(abs(x - y) > 1e-9 * (1 + abs(y)) for x, y in zip(last[1][1:], last_rec))):
-                        stale.append(f"the interpolator gives {last[1][1:]} at the simulated times, the recovery most recently returned was {last_rec}")
+                    # the solver's query time as it is (it may lie outside the simulated range, where the interpolator's fill
+                    # values answer), plus one probe beyond each end of the range
+                    tq = float(model.get("q")) if model.get("q") is not None else float(o.time[-1] + 1.0)
+                    last = ("value", [float(f(tq))] + [float(f(t_)) for t_ in o.time] + [float(f(o.time[-1] + 1.0)), float(f(o.time[0] - 1.0))])
+                    if last_rec is not None and (len(last_rec) != len(o.time) or any(abs(x - y) > 1e-9 * (1 + abs(y)) for x, y in zip(last[1][1:1 + len(o.time)], last_rec))):
+                        stale.append(f"the interpolator gives {last[1][1:1 + len(o.time)]} at the simulated times, the recovery most recently returned was {last_rec}")
             except (RuntimeError, AttributeError, ValueError, KeyError, TypeError) as ex:
                 last = ("exc", type(ex).__name__)
             if op in SIMS:
